@@ -15,10 +15,10 @@ from mirsmt.oracles import install_collections, install_dynkin, DynKin, SetV, Ma
 def run(ck):
     ck.bounds = dict(candidates='all 12', limits='arbitrary (oracle verdict per candidate)', environment='0..2 objects', table='arbitrary')
     ck.assumptions += ['initial is collision-free (premise of the property), so pairs of two unmoved bodies need no re-check', 'as C10 for everything inside parry3d / rayon']
-    for has_limits in (True, False):
+    for has_limits, nenv, tool, base in ((True, 1, True, True), (False, 1, True, True), (True, 0, True, True), (True, 0, False, True), (True, 2, True, False)):
         eng = ck.engine(unwind=14); install_collections(eng); install_dynkin(eng)
         st = eng.new_state()
-        body = c10.make_body(eng, True, True, 1, MapOracle('tbl'))
+        body = c10.make_body(eng, tool, base, nenv, MapOracle('tbl'))
         # the limits are a real Constraints value (symbolic fields) whose compliant() is an oracle verdict: code that reads the fields instead of asking compliant() runs, and disagrees
         limits = Agg([Agg([F(z3.Real(f'lim_from{i}')) for i in range(6)]), Agg([F(z3.Real(f'lim_to{i}')) for i in range(6)]), Agg([F(z3.Real(f'lim_c{i}')) for i in range(6)]),
                       Agg([F(z3.Real(f'lim_tol{i}')) for i in range(6)]), F(z3.Real('lim_w'))], 'constraints::Constraints')
@@ -36,7 +36,7 @@ def run(ck):
         res = eng.call_body(st, eng.bodies[c10.cfn(eng, 'non_colliding_offsets')], args)
         if len(res) != 1: raise Inconclusive(f'non_colliding_offsets left {len(res)} states')
         st, out = res[0]; ck.states += 1
-        label = f"non_colliding_offsets[limits={'yes' if has_limits else 'no'}]: "
+        label = f"non_colliding_offsets[limits={'yes' if has_limits else 'no'}, environment objects={nenv}, tool={int(tool)}, base={int(base)}]: "
         case = lambda m=None: dict(clause='offsets', limits=int(has_limits))
         ents = list(out.ents) if isinstance(out, VecV) else []
         ck.decide(label + 'twelve candidates are considered', eng, [], z3.BoolVal(len(ents) != 12 or len(pass_calls) != 12), case, nomodel_case=case)
